@@ -763,4 +763,312 @@ Proof.
   all: destruct HI1 as [?|[?|?]]; [lv | congruence | contradiction].
 Qed.
 
+(* ---------------- items.rs ---------------- *)
+Lemma block_or_statement_A p :
+  (p <= n -> lvl p 3 <= mu) -> W (block_or_statement inp R) (fun _ _ => True) p.
+Proof.
+  intros Hl. unfold block_or_statement. wp0.
+  - wcall block_expr_A. wp; auto.
+  - wguard Hg. wcall (good_stmt _ _ HR). auto.
+Qed.
+
+Lemma filepath_r_A rec p : W (filepath_r inp rec) (fun _ _ => True) p.
+Proof. unfold filepath_r. wp; auto. apply (WP_err_recover inp Hne); auto. Qed.
+Lemma version_A p : W (version_ inp) (fun _ _ => True) p.
+Proof. unfold version_. wp; auto. Qed.
+
+Ltac wp_hook ::=
+  lazymatch goal with
+  | |- WP _ (g_type_spec _) _ _ => let Hg := fresh "Hg" in wguard Hg; wcall (good_type_spec _ _ HR)
+  | |- WP _ (g_non_array_type_spec _) _ _ => let Hg := fresh "Hg" in wguard Hg; wcall (good_non_array _ _ HR)
+  | |- WP _ (g_param_list _ _) _ _ => let Hg := fresh "Hg" in wguard Hg; wcall (good_param_list _ _ HR)
+  | |- WP _ (g_if_stmt _ _) _ _ => let Hg := fresh "Hg" in wguard Hg; wcall (good_if_stmt _ _ HR)
+  | |- WP _ (expr _) _ _ => let Hg := fresh "Hg" in wguard Hg; wcall expr_A
+  | |- WP _ (expression_list _) _ _ => let Hg := fresh "Hg" in wguard Hg; wcall expression_list_A
+  | |- WP _ (arg_list_gate_call_qubits _) _ _ => let Hg := fresh "Hg" in wguard Hg; wcall arg_list_gate_call_qubits_A
+  | |- WP _ (designator _ _) _ _ => let Hg := fresh "Hg" in wguard Hg; wcall designator_A
+  | |- WP _ (index_operator _ _) _ _ => let Hg := fresh "Hg" in wguard Hg; wcall index_operator_A
+  | |- WP _ (set_expression _ _) _ _ => let Hg := fresh "Hg" in wguard Hg; wcall set_expression_A
+  | |- WP _ (range_expr _ _) _ _ => let Hg := fresh "Hg" in wguard Hg; wcall range_expr_A
+  | |- WP _ (arg_gate_call_qubit _ _ _) _ _ => let Hg := fresh "Hg" in wguard Hg; wcall arg_gate_call_qubit_A
+  | |- WP _ (type_spec _ _) _ _ => let Hg := fresh "Hg" in wguard Hg; wcall type_spec_A
+  | |- WP _ (qubit_type_spec _ _) _ _ => let Hg := fresh "Hg" in wguard Hg; wcall qubit_type_spec_A
+  | |- WP _ (opt_return_signature _ _) _ _ => let Hg := fresh "Hg" in wguard Hg; wcall opt_return_signature_A
+  | |- WP _ (q_or_c_reg_param _ _) _ _ => let Hg := fresh "Hg" in wguard Hg; wcall q_or_c_reg_param_A
+  | |- WP _ (block_expr _ _) _ _ => let Hg := fresh "Hg" in wguard Hg; wcall block_expr_A
+  | |- WP _ (try_block_expr _ _) _ _ => let Hg := fresh "Hg" in wguard Hg; wcall try_block_expr_A
+  | |- WP _ (block_or_statement _ _) _ _ => let Hg := fresh "Hg" in wguard Hg; wcall block_or_statement_A
+  | |- WP _ (identifier _) _ _ => wcall identifier_A
+  | |- WP _ (hardware_qubit _) _ _ => wcall hardware_qubit_A
+  | |- WP _ (var_name _) _ _ => wcall var_name_A
+  | |- WP _ (name_r _ _) _ _ => wcall name_r_A
+  | |- WP _ (name _) _ _ => unfold name; wcall name_r_A
+  | |- WP _ (filepath_r _ _) _ _ => wcall filepath_r_A
+  | |- WP _ (version_ _) _ _ => wcall version_A
+  end.
+
+Lemma switch_case_stmt_A m p :
+  (p <= n -> lvl p 0 <= mu) -> nth_at_pure p 0 K_SWITCH_KW = true ->
+  W (switch_case_stmt inp R m) (fun _ p' => p < p') p.
+Proof.
+  intros Hl Ha. unfold switch_case_stmt. wp.
+  all: wloop (fun _ : nat => True); wp; fin.
+Qed.
+
+Lemma if_stmt_A m p :
+  (p <= n -> lvl p 0 <= mu) -> nth_at_pure p 0 K_IF_KW = true ->
+  W (if_stmt inp R m) (fun _ p' => p < p') p.
+Proof. intros Hl Ha. unfold if_stmt. wp; fin. Qed.
+
+Lemma while_stmt_A m p :
+  (p <= n -> lvl p 0 <= mu) -> nth_at_pure p 0 K_WHILE_KW = true ->
+  W (while_stmt inp R m) (fun _ p' => p < p') p.
+Proof. intros Hl Ha. unfold while_stmt. wp; fin. Qed.
+
+Lemma for_stmt_A m p :
+  (p <= n -> lvl p 0 <= mu) -> nth_at_pure p 0 K_FOR_KW = true ->
+  W (for_stmt inp R m) (fun _ p' => p < p') p.
+Proof. intros Hl Ha. unfold for_stmt. wp; fin. Qed.
+
+Lemma qubit_declaration_stmt_A m p :
+  (p <= n -> lvl p 0 <= mu) -> nth_at_pure p 0 K_QUBIT_KW = true ->
+  W (qubit_declaration_stmt inp R m) (fun _ p' => p < p') p.
+Proof. intros Hl Ha. unfold qubit_declaration_stmt. wp; fin. Qed.
+
+Lemma reset_stmt_A m p :
+  (p <= n -> lvl p 0 <= mu) -> nth_at_pure p 0 K_RESET_KW = true ->
+  W (reset_stmt inp R m) (fun _ p' => p < p') p.
+Proof. intros Hl Ha. unfold reset_stmt. wp; fin. Qed.
+
+Lemma break_A m p : nth_at_pure p 0 K_BREAK_KW = true -> W (break_ inp m) (fun _ p' => p < p') p.
+Proof. intros Ha. unfold break_. wp; fin. Qed.
+Lemma continue_A m p : nth_at_pure p 0 K_CONTINUE_KW = true -> W (continue_ inp m) (fun _ p' => p < p') p.
+Proof. intros Ha. unfold continue_. wp; fin. Qed.
+Lemma end_A m p : nth_at_pure p 0 K_END_KW = true -> W (end_ inp m) (fun _ p' => p < p') p.
+Proof. intros Ha. unfold end_. wp; fin. Qed.
+
+Lemma gate_definition_A m p :
+  (p <= n -> lvl p 0 <= mu) -> nth_at_pure p 0 K_GATE_KW = true ->
+  W (gate_definition inp R m) (fun _ p' => p < p') p.
+Proof. intros Hl Ha. unfold gate_definition. wp; fin. Qed.
+Lemma defcal_A m p :
+  (p <= n -> lvl p 0 <= mu) -> nth_at_pure p 0 K_DEFCAL_KW = true ->
+  W (defcal_ inp R m) (fun _ p' => p < p') p.
+Proof. intros Hl Ha. unfold defcal_. wp; fin. Qed.
+
+Lemma classical_declaration_stmt_A m p :
+  (p <= n -> lvl p 0 <= mu) ->
+  is_classical_type (kind_at p) = true \/ nth_at_pure p 0 K_CONST_KW = true ->
+  W (classical_declaration_stmt inp R m) (fun _ p' => p < p') p.
+Proof.
+  intros Hl Hc. unfold classical_declaration_stmt. wp0.
+  - (* const consumed *) wp; fin.
+  - (* no const: the type specification consumes *)
+    destruct Hc as [Hc|Hc]; [|congruence].
+    wguard Hg. wcall type_spec_A as r q HP.
+    assert (p < q) by (apply HP; unfold is_type; rewrite Hc; reflexivity).
+    wp; fin.
+Qed.
+
+Lemma io_declaration_stmt_A m p :
+  (p <= n -> lvl p 0 <= mu) -> kind_at p <> K_EOF ->
+  W (io_declaration_stmt inp R m) (fun _ p' => p < p') p.
+Proof. intros Hl Ha. unfold io_declaration_stmt. wp; fin. Qed.
+
+Lemma def_stmt_A m p :
+  (p <= n -> lvl p 0 <= mu) -> nth_at_pure p 0 K_DEF_KW = true ->
+  W (def_stmt inp R m) (fun _ p' => p < p') p.
+Proof. intros Hl Ha. unfold def_stmt. wp; fin. Qed.
+Lemma extern_stmt_A m p :
+  (p <= n -> lvl p 0 <= mu) -> nth_at_pure p 0 K_EXTERN_KW = true ->
+  W (extern_stmt inp R m) (fun _ p' => p < p') p.
+Proof. intros Hl Ha. unfold extern_stmt. wp; fin. Qed.
+Lemma defcalgrammar_A m p :
+  nth_at_pure p 0 K_DEFCALGRAMMAR_KW = true -> W (defcalgrammar_ inp m) (fun _ p' => p < p') p.
+Proof. intros Ha. unfold defcalgrammar_. wp; fin. Qed.
+Lemma include_A m p :
+  nth_at_pure p 0 K_INCLUDE_KW = true -> W (include inp m) (fun _ p' => p < p') p.
+Proof. intros Ha. unfold include. wp; fin. Qed.
+Lemma cal_A m p :
+  (p <= n -> lvl p 0 <= mu) -> nth_at_pure p 0 K_CAL_KW = true ->
+  W (cal_ inp R m) (fun _ p' => p < p') p.
+Proof. intros Hl Ha. unfold cal_. wp; fin. Qed.
+Lemma version_string_A m p :
+  nth_at_pure p 0 K_O_P_E_N_Q_A_S_M_KW = true -> W (version_string inp m) (fun _ p' => p < p') p.
+Proof. intros Ha. unfold version_string. wp; fin. Qed.
+Lemma barrier_A m p :
+  (p <= n -> lvl p 0 <= mu) -> nth_at_pure p 0 K_BARRIER_KW = true ->
+  W (barrier_ inp R m) (fun _ p' => p < p') p.
+Proof. intros Hl Ha. unfold barrier_. wp; fin. Qed.
+Lemma delay_stmt_A m p :
+  (p <= n -> lvl p 0 <= mu) -> nth_at_pure p 0 K_DELAY_KW = true ->
+  W (delay_stmt inp R m) (fun _ p' => p < p') p.
+Proof. intros Hl Ha. unfold delay_stmt. wp; fin. Qed.
+Lemma alias_stmt_A m p :
+  (p <= n -> lvl p 0 <= mu) -> nth_at_pure p 0 K_LET_KW = true ->
+  W (alias_stmt inp R m) (fun _ p' => p < p') p.
+Proof. intros Hl Ha. unfold alias_stmt. wp; fin. Qed.
+
+(* ---------------- statements ---------------- *)
+Lemma opt_item_A m p :
+  (p <= n -> lvl p 0 <= mu) ->
+  W (opt_item inp R m) (fun r p' => (r = None -> p < p') /\ (r <> None -> p' = p)) p.
+Proof.
+  intros Hl. unfold opt_item. cbv zeta. wp0; kat.
+  all: try (wp; split; [congruence|auto]; fail).
+  all: match goal with |- WP _ ?c _ _ =>
+         first [ wcall classical_declaration_stmt_A | wcall qubit_declaration_stmt_A
+               | wcall gate_definition_A | wcall break_A | wcall continue_A | wcall end_A
+               | wcall if_stmt_A | wcall while_stmt_A | wcall for_stmt_A | wcall def_stmt_A
+               | wcall defcal_A | wcall cal_A | wcall defcalgrammar_A | wcall extern_stmt_A
+               | wcall reset_stmt_A | wcall barrier_A | wcall version_string_A | wcall include_A
+               | wcall switch_case_stmt_A | wcall alias_stmt_A | wcall delay_stmt_A
+               | wcall io_declaration_stmt_A ]
+       end.
+  all: try (wp; split; [intros; lia | congruence]).
+  all: try ne_eof.
+Qed.
+
+Lemma let_stmt_A m p :
+  (p <= n -> lvl p 0 <= mu) -> nth_at_pure p 0 K_LET_KW = true ->
+  W (let_stmt inp R m) (fun _ p' => p < p') p.
+Proof. intros Hl Ha. unfold let_stmt. wp; fin. Qed.
+
+Lemma q_or_c_reg_declaration_A m p :
+  (p <= n -> lvl p 0 <= mu) ->
+  W (q_or_c_reg_declaration inp R m) (fun _ p' => kind_at p <> K_EOF -> p < p') p.
+Proof. intros Hl. unfold q_or_c_reg_declaration. wp; fin. all: intros E; specialize (HP E); lia. Qed.
+
+Lemma err_and_bump_abandon_A m1 p :
+  ts_contains EXPR_FIRST (kind_at p) = false ->
+  W (err_and_bump inp)
+    (fun _ p1 => W (abandon m1)
+       (fun _ p' => kind_at p <> K_EOF -> kind_at p <> K_R_CURLY -> p < p') p1) p.
+Proof.
+  intros Hts. apply err_and_bump_A. cbn.
+  destruct (N.eqb (kind_at p) K_L_CURLY) eqn:E1.
+  { exfalso. apply N.eqb_eq in E1. rewrite E1 in Hts. vm_compute in Hts. discriminate. }
+  destruct (N.eqb (kind_at p) K_R_CURLY) eqn:E2; cbn.
+  { wp. intros _ Hc. apply N.eqb_eq in E2. congruence. }
+  destruct (N.eqb (kind_at p) K_EOF) eqn:E3; cbn.
+  { wp. intros Hc _. apply N.eqb_eq in E3. congruence. }
+  wp. intros; lia.
+Qed.
+
+Lemma stmt_A p :
+  (p <= n -> lvl p 2 <= mu) -> W (stmt inp R) (Post_stmt p) p.
+Proof.
+  intros Hl. unfold stmt, Post_stmt. wp0.
+  - (* ';' *) intros; lia.
+  - (* let *) wcall let_stmt_A. intros; lia.
+  - wguard Hg. wcall opt_item_A as r q HP. destruct HP as [HP1 HP2].
+    destruct r as [m1|]; [|wp; intros; apply HP1; auto].
+    specialize (HP2 ltac:(discriminate)). subst q. wp0.
+    all: try (intros; lia).
+    all: try (wp; fin; fail).
+    all: try (wcall q_or_c_reg_declaration_A as r1 q1 HP; intros E _; auto; fail).
+      all: try (assert (first_ok p = true) as Hfo
+                  by (unfold first_ok; rewrite ?Nat.add_0_r in *; rw_all; cbn; rewrite ?orb_true_r; reflexivity);
+                wcall expr_bp_A as r q HP; destruct HP as [_ HP]; specialize (HP Hfo); wp; fin).
+    all: apply err_and_bump_abandon_A; assumption.
+Qed.
+
+Lemma item_A stop p :
+  (p <= n -> lvl p 3 <= mu) ->
+  W (item inp R stop)
+    (fun _ p' => kind_at p <> K_EOF -> (kind_at p <> K_R_CURLY \/ stop = false) -> p < p') p.
+Proof.
+  intros Hl. unfold item. wp0. wguard Hg. wcall opt_item_A as r q HP. destruct HP as [HP1 HP2].
+  destruct r as [m1|].
+  - specialize (HP2 ltac:(discriminate)). subst q. wp0; kat.
+    all: try (wcall expr_block_statements_A as r1 q1 HP; intros E _; apply HP; auto;
+              match goal with H : keq (kind_at _) K_R_CURLY = false |- _ =>
+                unfold keq in H; apply N.eqb_neq in H; exact H end).
+    all: try (wp; fin; fail).
+    all: intros E1 E2; try lia; exfalso;
+      first [ match goal with H : Parser.nth_at_pure _ _ 0 K_EOF = true |- _ =>
+                apply (keq_of_at _ K_EOF) in H; [congruence|simp_k] end
+            | destruct E2 as [E2|E2];
+              [ match goal with H : Parser.nth_at_pure _ _ 0 K_R_CURLY = true |- _ =>
+                  apply (keq_of_at _ K_R_CURLY) in H; [congruence|simp_k] end
+              | congruence ] ].
+  - specialize (HP1 eq_refl). wp; fin.
+    all: apply err_and_bump_A; cbn; repeat destruct (N.eqb _ _); cbn; intros; lia.
+Qed.
+
+Lemma source_file_contents_A stop p :
+  (p <= n -> lvl p 3 <= mu) ->
+  W (source_file_contents inp R stop) (fun _ p' => stop = false -> n <= p') p.
+Proof.
+  intros Hl. unfold source_file_contents. wloop (fun _ : nat => True). wp0.
+  - (* at EOF *) wp. intros _. apply (keq_of_at p1 K_EOF) in Heqb; [|simp_k].
+    apply (kind_at_eof_iff inp Hne); auto.
+  - (* at '}' and stop *) wp. intros E. subst. discriminate.
+  - wguard Hg. wcall item_A as r q HP. wp. split; auto. apply HP.
+    + apply (not_at p1 K_EOF); auto; simp_k.
+    + right. destruct stop; auto; discriminate.
+  - wguard Hg. wcall item_A as r q HP. wp. split; auto. apply HP.
+    + apply (not_at p1 K_EOF); auto; simp_k.
+    + left. apply (not_at p1 K_R_CURLY); auto; simp_k.
+Qed.
+
+Lemma source_file_A p :
+  (p <= n -> lvl p 3 <= mu) -> W (source_file inp R) (fun _ p' => n <= p') p.
+Proof.
+  intros Hl. unfold source_file. wp0. wguard Hg. wcall source_file_contents_A as r q HP. wp; auto.
+Qed.
+
 End A.
+
+(* ---------------- closing the knot ---------------- *)
+Section Knot.
+Variable inp : list (N * bool).
+Hypothesis Hne : forall i k j, nth_error inp i = Some (k, j) -> k <> K_EOF.
+
+Lemma good_tie : forall k, Good inp (tie inp k) k.
+Proof.
+  induction k as [|k IH].
+  - constructor; intros; apply WP_guard; intro Hp;
+      match goal with H : _ <= _ -> _ < 0 |- _ => specialize (H Hp); lia end.
+  - constructor; cbn [tie g_expr_bp g_stmt g_type_spec g_non_array_type_spec g_if_stmt g_param_list].
+    + intros m ps bp p Hbp Hl. apply (expr_bp_A inp Hne _ _ IH); auto. intros Hp. specialize (Hl Hp). lia.
+    + intros p Hl. apply (stmt_A inp Hne _ _ IH). intros Hp. specialize (Hl Hp). lia.
+    + intros p Hl. eapply WP_conseq; [apply (type_spec_A inp Hne _ _ IH)|auto].
+      intros Hp. specialize (Hl Hp). lia.
+    + intros p Hl. eapply WP_conseq; [apply (non_array_type_spec_A inp Hne _ _ IH)|auto].
+      intros Hp. specialize (Hl Hp). lia.
+    + intros m p Ha Hl. eapply WP_conseq; [apply (if_stmt_A inp Hne _ _ IH); auto|auto].
+      intros Hp. specialize (Hl Hp). lia.
+    + intros fl p Hl. apply (param_list_openqasm_A inp Hne _ _ IH). intros Hp. specialize (Hl Hp). lia.
+Qed.
+
+(* Theorem A: the parse of any token sequence terminates (no loop or recursion fuel is
+   exhausted) and no token-precondition assertion fires; when the grammar returns, every
+   token has been consumed. *)
+Theorem source_file_total :
+  match source_file inp (tie inp (fuel_for inp)) init_state with
+  | Ok _ s => pos s = ntoks inp
+  | Panic w => okA w
+  | OutOfFuel => False
+  end.
+Proof.
+  pose proof (source_file_A inp Hne _ _ (good_tie (fuel_for inp)) 0) as H.
+  assert (0 <= ntoks inp -> lvl inp 0 3 <= fuel_for inp) as Hl.
+  { intros _. unfold lvl, fuel_for, ntoks. lia. }
+  specialize (H Hl init_state eq_refl (Nat.le_0_l _)).
+  destruct (source_file inp (tie inp (fuel_for inp)) init_state); auto.
+  destruct H as [_ [H1 H2]]. lia.
+Qed.
+
+Theorem run_parser_total :
+  match run_parser inp with
+  | Steps _ => True
+  | Panicked w => okA w
+  | Hang => False
+  end.
+Proof.
+  unfold run_parser. pose proof source_file_total as H.
+  destruct (source_file inp (tie inp (fuel_for inp)) init_state) as [a s|w|]; auto.
+  destruct (live s); [|exact I]. destruct (process (rev (evs s))); exact I.
+Qed.
+End Knot.
